@@ -31,6 +31,9 @@ func genBigBulk(job *Job, prop string, seed, idx uint64) *RunOutcome {
 	for n > maxN {
 		n = bigSizes[r.Intn(len(bigSizes))]
 	}
+	if job.Params["genonly"] == "1" {
+		n = []int{1500, 2500, 4000, 5000, 7000}[r.Intn(5)]
+	}
 	if strings.HasPrefix(be, "badger") && n > 150 {
 		n = bigSizes[r.Intn(9)]
 	}
@@ -107,6 +110,24 @@ func genBigBulk(job *Job, prop string, seed, idx uint64) *RunOutcome {
 			return &model.Crit{Op: "exists", F: "m"}
 		default:
 			return &model.Crit{Op: "neq", F: "k", A: lit(int64(r.Intn(mod%100 + 1)))}
+		}
+	}
+	if job.Params["reads"] == "1" {
+		// sorted and windowed reads over a large collection
+		for i := r.Range(3, 7); i > 0; i-- {
+			q := &model.Query{Coll: coll, Crit: crit(), SortCalls: true}
+			flds := []string{"k", "s", "m", "pad", "_id"}
+			q.Sort = []model.SortOpt{{Field: flds[r.Intn(len(flds))], Dir: []int{1, -1}[r.Intn(2)]}}
+			if r.Chance(0.5) {
+				q.Sort = append(q.Sort, model.SortOpt{Field: flds[r.Intn(len(flds))], Dir: []int{1, -1}[r.Intn(2)]})
+			}
+			if r.Chance(0.8) {
+				q.HasSkip, q.Skip = true, []int{0, 1, 5, n / 3, n / 2}[r.Intn(5)]
+			}
+			if r.Chance(0.8) {
+				q.HasLimit, q.Limit = true, []int{1, 5, 17, n / 4, n}[r.Intn(5)]
+			}
+			rf.Ops = append(rf.Ops, Op{K: "FindAll", Q: q})
 		}
 	}
 	nOps := r.Range(1, 3)
